@@ -244,7 +244,10 @@ def healthLine (f : List String) : String :=
         | none => (m, out, false)
       else if o == "get" then (m, out ++ [Health.render (Health.respond m)], okp)
       else if o == "isready" then (m, out ++ [s!"R:{Health.isReady m}"], okp)
-      else if o == "wait" then (m, out ++ [if Health.isReady m then "W:closed" else "W:ctxerr"], okp)
+      else if o == "wait" then
+        -- the waiter model: a tick, then the cancellation and the waiter's `ctx.Done()` arm (a late look changes nothing)
+        let r := (Health.wrun { m := m } [.tick, .cancel, .ctxArm, .tick]).res
+        (m, out ++ [if r == some .closed then "W:closed" else if r == some .ctxErr then "W:ctxerr" else "W:none"], okp)
       else (m, out, false)) ([], [], true)
     let (_, out, okp) := go
     if !okp then s!"{id} !badcase" else
